@@ -185,13 +185,14 @@ def run_mc(s, workdir, timeout=900):
     env.pop('GXV_MC_PRELUDE', None)
     if s.get('prelude'):
         real = base_text(s)
-        pname, pval = s['prelude']
+        pname, pval = s['prelude'][:2]
+        piters = s['prelude'][2] if len(s['prelude']) > 2 else 2
         lines = [(f'{pname}, {pval}' if ln.split(',')[0].strip() == pname else ln) for ln in real.split('\n')]
         anchor = 'Reservoir Temperature' if s['program'] == 'HIP' else 'Gradient 1'
         pj = os.path.join(workdir, 'prelude.json')
         with open(pj, 'w') as f:
             json.dump({'base': '\n'.join(lines), 'real_base': real,
-                       'settings': f'INPUT, {anchor}, normal, #, 0.5\n' + ''.join(f'OUTPUT, {o}\n' for o in s['outputs']) + 'ITERATIONS, 2\n'}, f)
+                       'settings': f'INPUT, {anchor}, normal, #, 0.5\n' + ''.join(f'OUTPUT, {o}\n' for o in s['outputs']) + f'ITERATIONS, {piters}\n'}, f)
         env['GXV_MC_PRELUDE'] = pj
     pr = subprocess.run([sys.executable, '-c', RUNNER % {'src': SRC_DIR}, str(s['workers']), code, base, sett, out], cwd=workdir,
                         env=env, capture_output=True, text=True, timeout=timeout)
